@@ -164,6 +164,11 @@ def one_run(rec, lib, rnd, d, dir_mode, st, inproc):
         name = DIR_NAMES[k] if dir_mode else single_name
         rel = name if (not dir_mode or k == 0) else os.path.join("sub", name)
         files[rel] = sheet
+    # sometimes the stylesheets live in a sub-directory of the working directory: outputs must be beside the
+    # inputs, the report in the *working directory*
+    prefix = "proj" if rnd.random() < 0.3 else ""
+    if prefix:
+        files = {os.path.join(prefix, rel): sh for rel, sh in files.items()}
     for rel, sheet in files.items():
         p = os.path.join(d, rel)
         os.makedirs(os.path.dirname(p), exist_ok=True)
@@ -173,9 +178,11 @@ def one_run(rec, lib, rnd, d, dir_mode, st, inproc):
     with open(os.path.join(d, "notes.txt"), "w") as f:
         f.write("not a stylesheet\n")
     before = clirun.snapshot(d)
-    target_arg = "." if dir_mode else ("./" + single_name)
+    target_arg = (prefix or ".") if dir_mode else ("./" + os.path.join(prefix, single_name))
     args = c08.cli_args(target_arg, st)
-    case = {"files": {rel: s.text for rel, s in files.items()}, "settings": st, "dir_mode": dir_mode}
+    case = {"files": {rel: s.text for rel, s in files.items()}, "settings": st, "dir_mode": dir_mode, "arg": target_arg}
+    if prefix:
+        rec.count("runs_from_parent_directory")
     events = None
     if inproc:
         with IOWindow(d, capture_fds=False) as w:
@@ -316,7 +323,7 @@ def replay(case):
         with open(p, "w", encoding="utf-8", newline="") as f:
             f.write(text)
     before = clirun.snapshot(d)
-    rc, out, err = clirun.run(c08.cli_args("." if case["dir_mode"] else "./" + sorted(case["files"])[0], st), d, inprocess=False)
+    rc, out, err = clirun.run(c08.cli_args(case.get("arg") or ("." if case["dir_mode"] else "./" + sorted(case["files"])[0]), st), d, inprocess=False)
     after = clirun.snapshot(d)
     print("settings", st, "dir_mode", case["dir_mode"])
     print(out)
